@@ -10,7 +10,7 @@ from . import httplib as H
 OCAML = H.OCAML
 GO = H.GO
 PROP = "props/C14.v"
-PROOFS = ["proofs/HttpDrainProofs.v", "model/HttpDrain.v", "lib/LTS.v"]
+PROOFS = list(dict.fromkeys(["proofs/HttpDrainProofs.v", "model/HttpDrain.v", "lib/LTS.v"] + H.PROTO_PROOFS + H.MODEL_FILES))
 HOW = "build/bin/http -family drain -case <file with the case JSON> | build/bin/http_model"
 
 
